@@ -36,6 +36,7 @@ import (
 
 	_ "github.com/mattn/go-sqlite3"
 	"github.com/superfly/litefs"
+	lfuse "github.com/superfly/litefs/fuse"
 	lhttp "github.com/superfly/litefs/http"
 	"verif/cluster"
 	"verif/core"
@@ -2132,6 +2133,104 @@ func runKMountC15(c *core.Case, k int) {
 			return
 		}
 		c.Count("kmount_drop_seen_through_replica_kernel", 1)
+	}
+	// ---- recreate at once, while the kernel still caches the dropped database's
+	// journal entry: LiteFS tells the kernel about the removed -journal/-wal/-shm
+	// files from a goroutine that runs after the unlink has been answered. The
+	// hook holds that goroutine back, so the window every application has between
+	// `rm db` and its next open is open for certain (normally it is microseconds
+	// wide and only shows under load).
+	if k%2 == 0 {
+		jm := []string{"persist", "truncate"}[(k/2)%2]
+		w, err := proc.open(pdb, false)
+		if err != nil {
+			fail("recreate-failed", "open: "+err.Error())
+			return
+		}
+		for _, q := range []string{"PRAGMA journal_mode=" + jm, "CREATE TABLE t_h0(id INTEGER PRIMARY KEY, k INTEGER, v BLOB)", "INSERT INTO t_h0 VALUES(1,1,randomblob(3000))"} {
+			if _, err := w.queryStringOrExec(q); err != nil {
+				healthViolations(c, P.Node, q, detail())
+				if !c.Violated() {
+					fail("recreate-failed", fmt.Sprintf("held phase, setup: %q: %v", q, err))
+				}
+				return
+			}
+			hist = append(hist, q)
+		}
+		w.close()
+		if !converge("before the held drop") {
+			return
+		}
+		release := make(chan struct{})
+		entered := make(chan struct{}, 4)
+		hook := func(dbName string) {
+			entered <- struct{}{}
+			select {
+			case <-release:
+			case <-time.After(20 * time.Second):
+			}
+		}
+		lfuse.VerifBeforeNotifyDelete.Store(&hook)
+		released := false
+		rel := func() {
+			if !released {
+				released = true
+				close(release)
+				lfuse.VerifBeforeNotifyDelete.Store(nil)
+			}
+		}
+		defer rel()
+		if _, err := proc.call(sqlReq{Op: "unlink", Path: pdb}); err != nil {
+			healthViolations(c, P.Node, "unlink", detail())
+			if !c.Violated() {
+				fail("drop-failed", fmt.Sprintf("held phase: unlink of the database on the primary's mount: %v", err))
+			}
+			return
+		}
+		select {
+		case <-entered:
+		case <-time.After(10 * time.Second):
+			c.Inconclusive("the notification goroutine never reached the hook")
+			return
+		}
+		hist = append(hist, "rm db (kernel notifications of the removed journal held back); recreate at once")
+		w, err = proc.open(pdb, false)
+		if err != nil {
+			fail("recreate-failed", "held phase: open: "+err.Error())
+			return
+		}
+		for _, q := range []string{"PRAGMA journal_mode=" + jm, "CREATE TABLE t_h1(id INTEGER PRIMARY KEY, k INTEGER, v BLOB)", "INSERT INTO t_h1 VALUES(1,2,randomblob(2000))"} {
+			if _, err := w.queryStringOrExec(q); err != nil {
+				healthViolations(c, P.Node, q, detail())
+				if !c.Violated() {
+					fail("recreate-failed", fmt.Sprintf("a database recreated right after its drop, before the kernel was told that the old journal is gone: %q: %v", q, err))
+				}
+				return
+			}
+			hist = append(hist, q)
+		}
+		want, err := w.tableHash("t_h1")
+		w.close()
+		rel()
+		if err != nil {
+			fail("read-error", err.Error())
+			return
+		}
+		if !converge("after the recreate that followed the held drop") {
+			return
+		}
+		r, err := proc.open(rdb, true)
+		if err != nil {
+			fail("replica-open", "held phase: "+err.Error())
+			return
+		}
+		got, err := r.tableHash("t_h1")
+		r.close()
+		if err != nil || got != want {
+			fail("replica-content-differs", fmt.Sprintf("held phase: the replica reads %s (%v), the primary holds %s", got, err, want))
+			return
+		}
+		c.Count("kmount_recreate_while_notify_held", 1)
 	}
 	c.Distinct(fmt.Sprintf("kmount/c15/k%d/cycles%d", k%5, cycles))
 	if k < 2 {
